@@ -53,6 +53,9 @@ class Engine:
         self.prog = prog
         self.solver = z3.Solver()
         self.solver.set('timeout', timeout_ms)
+        self.timeout_ms = timeout_ms; self.branch_timeout_ms = min(timeout_ms, 5000); self.assumed_feasible = 0
+        self.deadline = None; self.max_paths = None
+        self.abstract_fdiv = False        # treat f64 division of two symbolic operands as an uninterpreted function (over-approximation)
         if seed: self.solver.set('random_seed', seed % (1 << 30))
         self.pc = []
         self.stats = Stats()
@@ -83,9 +86,16 @@ class Engine:
         if cond is True: return True
         if cond is False: return False
         if self.no_feasibility: return True
-        r = self.check(cond)
+        self.solver.set('timeout', self.branch_timeout_ms)
+        try:
+            r = self.check(cond)
+        finally:
+            self.solver.set('timeout', self.timeout_ms)
         if r == z3.unknown:
-            raise Unsupported('solver unknown on a branch condition: ' + str(cond)[:160])
+            # undecided within the branch budget: keep the branch (over-approximation: sound for "holds on every path";
+            # any counterexample found below it must still pass the concrete replay)
+            self.assumed_feasible += 1
+            return True
         return r == z3.sat
 
     def assume(self, cond):
@@ -340,7 +350,9 @@ class Engine:
             if o == 'Add': return fsimp(z3.fpAdd(RNE, a, b), a, b)
             if o == 'Sub': return fsimp(z3.fpSub(RNE, a, b), a, b)
             if o == 'Mul': return fsimp(z3.fpMul(RNE, a, b), a, b)
-            if o == 'Div': return fsimp(z3.fpDiv(RNE, a, b), a, b)
+            if o == 'Div':
+                if self.abstract_fdiv and not fp_is_conc(a) and not fp_is_conc(b): return uf_f64('fdiv', a, b)
+                return fsimp(z3.fpDiv(RNE, a, b), a, b)
             if o == 'Rem': return self.summaries.f_fmod(a, b)
             cmp = {'Eq': z3.fpEQ, 'Ne': z3.fpNEQ, 'Lt': z3.fpLT, 'Le': z3.fpLEQ, 'Gt': z3.fpGT, 'Ge': z3.fpGEQ}.get(o)
             if cmp:
@@ -429,6 +441,7 @@ class Engine:
 
     def finish(self, st, kind, value=None, msg=None, where=None):
         self.stats.paths += 1
+        if self.max_paths and self.stats.paths > self.max_paths: raise StopExploration()
         p = Path(kind, value, msg, where, st.steps, self.path_condition(), st, st.trace)
         if self.on_path: self.on_path(p)
 
@@ -469,6 +482,8 @@ class Engine:
     def _run(self, st):
         stats = self.stats
         while st.frames:
+            if self.deadline and (stats.stmts & 1023) == 0 and time.time() > self.deadline:
+                raise Unsupported('wall-clock budget of this obligation exceeded')
             fr = st.frames[-1]
             blk = fr['fn'].blocks[fr['bb']]
             for s in blk.stmts:
@@ -735,6 +750,10 @@ class Engine:
 
 class StepLimit(Exception):
     pass
+
+
+class StopExploration(Exception):
+    """the path budget of an obligation is used up (reported as a truncated exploration)"""
 
 
 def as_z3_bool(a):
